@@ -31,6 +31,11 @@ def run(chk, tier, scale=1.0):
         jobs.append((exe, ["pton-strings", maxlen, str(first)], None, 14400))
     res = vcommon.pmap(c12.job, jobs)
     tot = c12.digest(chk, "C13", res)
+    # coverage-guided inputs (libFuzzer, clang ASan+UBSan) through the same oracle: a fixed number of runs per process
+    fexe = c12.build_fuzzer("c13f-" + tier)
+    nf = int((250000 if tier == "quick" else 8000000) * scale)
+    fres = vcommon.pmap(c12.fuzz_job, [(fexe, seed * 1000 + k, nf, 64 if k % 2 else 24) for k in range(16)])
+    c12.fuzz_digest(chk, "C13", fres)
     chk.count("mask_tests", tot.get("mask_true", 0) + tot.get("mask_false", 0))
     chk.count("mask_tests_expected_true", tot.get("mask_true", 0))
     chk.count("mask_tests_expected_false", tot.get("mask_false", 0))
@@ -42,7 +47,8 @@ def run(chk, tier, scale=1.0):
                 "(thorough: every 16-bit difference in every group at every length); grammar-derived a.b.c.d/n, a.b.*, x:y::/n, x:y:*, * "
                 "texts with independently computed (bits, network) and an inside/outside address probe; all strings over {0,1,9,a,f,:,.,/,*} "
                 "up to length %s and mutated seeds, each in an exact-size heap buffer in all four (bits NULL/non-NULL x allow_trailing) modes "
-                "under ASan+UBSan, compared with inet_pton when both accept; a case is one harness slice, non-trivial when it judged >=1 input" % maxlen)
+                "under ASan+UBSan, compared with inet_pton when both accept; 16 libFuzzer processes (clang ASan+UBSan, fixed run count, inputs up to 24 / 64 bytes, "
+                "seeded with mask and address texts) drive the same oracle with coverage-guided strings; a case is one harness slice, non-trivial when it judged >=1 input" % maxlen)
     chk.exhaustive = False
     chk.extra["exhaustive_subspace"] = "all strings over a 9-character alphabet up to length %s%s" % (
         maxlen, "; all (group, length, 16-bit difference) triples" if tier == "thorough" else "")
@@ -55,6 +61,15 @@ def run(chk, tier, scale=1.0):
 
 
 def replay(chk, rep):
+    if "fuzz_input" in rep["witness"]:
+        import tempfile, os
+        fexe = c12.build_fuzzer("c13f-replay")
+        with tempfile.NamedTemporaryFile("w", delete=False, encoding="latin-1") as f:
+            f.write(rep["witness"]["fuzz_input"] or "")
+        r = hrun.run([fexe, f.name], timeout=600)
+        os.unlink(f.name)
+        print(r.out[-2000:], r.err[-2000:])
+        return 1 if r.rc != 0 else 0
     exe = c12.build_exe("c13-replay")
     r = hrun.run([exe] + rep["witness"]["argv"], timeout=7200)
     print(r.out[-3000:])
